@@ -244,7 +244,30 @@ def c17_jobs(tier):
     return [j for j in jobs if j is not None]
 
 
+def c18_jobs(tier):
+    q = tier == 'quick'
+    jobs = []
+    cases = [(0, 0, 9), (1, 3, 10), (2, 4, 13), (3, 3, 9), (4, 0, 9), (6, 1, 130), (6, 0, 128), (7, 3, 12), (7, 7, 12), (8, 2, 17), (9, 1, 6), (9, 0, 6),
+             (10, 2, 8), (11, 2, 9), (11, 3, 19), (12, 4, 9), (12, 5, 11)]
+    if not q:
+        cases += [(0, 0, 24), (1, 5, 23), (2, 8, 24), (3, 5, 16), (4, 0, 24), (5, 0, 100), (7, 15, 24), (8, 16, 24), (9, 1, 10), (10, 5, 12), (12, 7, 15)]
+    for (t, par, n) in cases:
+        jobs.append(J('root', 'H_C18_pure', [t, par, n], race=True))
+    for which in (0, 1, 2, 3):
+        for nb in ((2, 5) if q else (2, 5, 9)):
+            jobs.append(J('root', 'H_C18_pure_bytes', [which, nb], race=True))
+    return jobs
+
+
 PROPS = {
+    'C18': {
+        'jobs': c18_jobs,
+        'technique': 'solver-based bounded checking of the real code with effect tracking: during symbolic execution every store whose target object existed before the call (caller slices, package-level variables) becomes an obligation; input-unchanged and same-result-on-second-call are asserted over symbolic inputs; models are replayed natively with a concurrent second call under the Go race detector',
+        'bounds': {'quick': 'thirteen test functions (all but Maurer/DFT/runs distribution) at n = 6..19 bits (longest run 128/130), byte fast paths at 2 and 5 bytes: no store outside memory allocated by the call, input cells equal afterwards, second call gives identical terms',
+                   'thorough': 'larger n (<= 24), runs distribution at n=100'},
+        'outside': 'Maurer, DFT and the round functions (their purity follows from the same pattern but is not executed here); inputs above the bounds; freedom from data races between concurrent calls is the stated consequence of "writes only to memory allocated by the call, reads of shared data only" - the premises are checked, the conclusion is an argument (natively confirmed by the race detector only on replayed counterexamples)',
+        'assumptions': ['object identity in the memory model is exact: a store is attributed to the allocation it addresses'],
+    },
     'C17': {
         'jobs': c17_jobs,
         'technique': 'solver-based relational checking of the real code: two symbolic executions (x and T(x)) of the same go/ssa functions, counts identified by guard pairing, tails compared in reals+UF with the erfc reflection axiom; models replayed natively',
